@@ -24,16 +24,16 @@ TInit == /\ tid \in 1..Len(Traces)
          /\ TLCSet(tid, 1)
 
 PostOk(p) ==
-  /\ \A v \in Inst : /\ Len(wire[v]) = Len(p.wire[v])
-                     /\ \A i \in 1..Len(wire[v]) : wire[v][i] = p.wire[v][i]
-                     /\ inst[v].k = p.inst[v]
+  /\ \A a \in Apps : /\ Len(wire[a]) = Len(p.wire[a])
+                     /\ \A i \in 1..Len(wire[a]) : wire[a][i] = p.wire[a][i]
+  /\ \A v \in Inst : inst[v].k = p.inst[v]
   /\ Len(out) = Len(p.out)
   /\ \A i \in 1..Len(out) : out[i].v = p.out[i].v /\ out[i].p = p.out[i].p /\ out[i].r = p.out[i].r
 
 Stim(e) ==
   CASE e.a = "NewValidator" -> NewValidator(e.v, e.x)
-    [] e.a = "Validate" -> Validate(e.v, e.p)
-    [] e.a = "FetchReply" -> FetchReply(e.v, e.kind)
+    [] e.a = "Validate" -> Validate(e.s, e.p)
+    [] e.a = "FetchReply" -> FetchReply(e.app, e.n, e.kind)
     [] e.a = "Heal" -> Heal(e.x)
     [] OTHER -> FALSE
 
